@@ -2,6 +2,8 @@ CONSTANT Classes = {"e", "s", "l"}
 CONSTANT MaxFrames = 2
 CONSTANT MaxCuts = 2
 CONSTANT Garbage = {"none", "gl", "gb", "gv"}
+CONSTANT Sizes = {"lim"}
+CONSTANT FullOnly = FALSE
 INIT Init
 NEXT Next
 INVARIANTS Emit
